@@ -41,8 +41,9 @@ type Conn struct {
 	tdsChannelsLock     *sync.RWMutex
 	errCh               chan error
 
-	// packetSize is the negotiated packet size
-	packetSize int
+	// packetSize is the negotiated packet size. It is written by the
+	// goroutine reading from the server and read by every channel.
+	packetSize atomic.Int64
 }
 
 // Dial returns a prepared and dialed Conn.
@@ -113,10 +114,10 @@ func NewConn(ctx context.Context, info *Info) (*Conn, error) {
 	}
 
 	tds := &Conn{
-		info:       info,
-		conn:       c,
-		packetSize: 512,
+		info: info,
+		conn: c,
 	}
+	tds.packetSize.Store(512)
 
 	if err := tds.setCapabilities(); err != nil {
 		return nil, fmt.Errorf("error setting capabilities on connection: %w", err)
@@ -178,7 +179,7 @@ func (tds *Conn) Close() error {
 func (tds *Conn) PacketSize() int {
 	// Must be pointer-receive as it is passed to Channels to acquire
 	// the negotiated packet size.
-	return tds.packetSize
+	return int(tds.packetSize.Load())
 }
 
 // PacketBodySize returns the negotiated packet size minus the packet
@@ -186,7 +187,7 @@ func (tds *Conn) PacketSize() int {
 func (tds *Conn) PacketBodySize() int {
 	// Must be pointer-receive as it is passed to Channels to acquire
 	// the negotiated packet size.
-	return tds.packetSize - PacketHeaderSize
+	return int(tds.packetSize.Load()) - PacketHeaderSize
 }
 
 func (tds *Conn) getValidChannelId() (int, error) {
